@@ -31,12 +31,13 @@ Record imon2 := mkIMon2 {
   n_demotes : Z;                 (* demotion callbacks entered *)
   n_start_t : Z;                 (* when the latest Start was accepted *)
   n_fault_ops : list Z;          (* calls of this instance hit by an injected fault and still in flight *)
-  n_reconn_t : option Z          (* a reconnect was notified to the leader at this time and no verification read has been issued since *)
+  n_reconn_t : option Z;         (* a reconnect was notified to the leader at this time and no verification read has been issued since *)
+  n_hn : Z                       (* number of the latest health check that was started *)
 }.
 #[export] Instance eta_imon2 : Settable _ :=
   settable! mkIMon2 <n_att; n_fails; n_okissue; n_lost; n_lost_fault; n_due; n_hrun; n_hdue; n_hdem; n_vals; n_disc; n_reconn;
-                     n_vers; n_disc_prev; n_tk_due; n_last_fault; n_crashed; n_demotes; n_start_t; n_fault_ops; n_reconn_t>.
-Definition imon20 := mkIMon2 None 0 0 None false None 0 None None [] None false [] None None (-1) false 0 0 [] None.
+                     n_vers; n_disc_prev; n_tk_due; n_last_fault; n_crashed; n_demotes; n_start_t; n_fault_ops; n_reconn_t; n_hn>.
+Definition imon20 := mkIMon2 None 0 0 None false None 0 None None [] None false [] None None (-1) false 0 0 [] None (-1).
 
 Record mst2 := mkM2 { q_i : amap imon2; q_vac : amap Z (* key -> time the record became absent *); q_maxlat : Z }.
 #[export] Instance eta_mst2 : Settable _ := settable! mkM2 <q_i; q_vac; q_maxlat>.
@@ -175,10 +176,12 @@ Definition m2apply (b b' : base) (m0 : mst2) (te : Z * ev) : mst2 :=
                 (insts_of_key b key) m2
   | EExtDel key rev => let m1 := mark_lost t m (losers b key 0) in if live_of b key then m1 <| q_vac ::= fun a => aset a key t |> else m1
   | EExpire key rev => let m1 := mark_lost t m (losers b key (-1)) in if live_of b key then m1 <| q_vac ::= fun a => aset a key t |> else m1
-  | EHealth i n res dl dur => m2upd m i (fun x => if zb res then x <| n_hrun := 0 |> else x <| n_hrun ::= Z.succ |>)
+  | EHealth i n res dl dur => m2upd m i (fun x => (if zb res then x <| n_hrun := 0 |> else x <| n_hrun ::= Z.succ |>) <| n_hn := n |>)
   | EHealthRet i n =>
+      (* only the return of the check that completed the run counts: a checker that ignored its deadline can return
+         after the next term's checks have started *)
       let x := m2_of m i in
-      if (n_hrun x =? health_thr (cfg_of b i)) && io_flag (inst_of b i) then m2upd m i (fun x => x <| n_hdue := Some t |>) else m
+      if (n =? n_hn x) && (n_hrun x =? health_thr (cfg_of b i)) && io_flag (inst_of b i) then m2upd m i (fun x => x <| n_hdue := Some t |>) else m
   | EApi i call a1 a2 a3 a4 gid =>
       if (call =? aValidate) || (call =? aValOrDemote) then
         m2upd m i (fun x => x <| n_vals ::= fun a => aset a gid (a3, zb a2, record_good b i a3, false, false) |>)
